@@ -20,6 +20,7 @@
   "no fault, enough fuel, and this value".
 -/
 import IgrisModel.C19.Lemmas
+import IgrisModel.C19.Lemmas2
 namespace Igris.C19
 open Igris.Proto
 
@@ -519,5 +520,247 @@ theorem creader_loop_ends (mem : Str) : ∃ l, creaderAll mem (mem.length + 2) 0
 
 -- "a\r\n" is one line of length 1 ("a\n" gave 0 before the repair)
 example : creaderReadline [0x61#8, CR, NL] 0 = some (1, 0, 3) := by decide
+
+/-! # Extension (round 3): the remaining routines of the anchored files
+
+Model: Model2.lean, reference definitions: Spec2.lean, lemmas: Lemmas2.lean.
+A C string is again `text ++ NUL :: junk` (the whole allocation), `= some …`
+says "no access outside the extent" as well. -/
+
+/-! ## pathops.h: predicates -/
+
+/-- `path_is_abs`: the first character is `'/'` (false for the empty path) -/
+theorem pathIsAbs_spec (s junk : Str) (hn : NUL ∉ s) :
+    pathIsAbs (s ++ NUL :: junk) = some (s.head? == some SLASH) :=
+  pathIsAbs_eq s junk hn
+
+/-- `path_is_simple`: no `'/'` anywhere in the path; stops at the terminator -/
+theorem pathIsSimple_spec (s junk : Str) (hn : NUL ∉ s) :
+    pathIsSimple (s ++ NUL :: junk) = some (!s.contains SLASH) :=
+  pathIsSimple_eq s junk hn
+
+/-- `path_is_double_dot`: the first piece of the path (up to the first `'/'`)
+is exactly `".."`; `path[1]`, `path[2]` are read only inside the string -/
+theorem pathIsDoubleDot_spec (s junk : Str) (hn : NUL ∉ s) :
+    pathIsDoubleDot (s ++ NUL :: junk) = some (headComp s == [DOT, DOT]) :=
+  pathIsDoubleDot_eq s junk hn
+
+example : NUL ∉ ([DOT, DOT, SLASH, 0x61#8] : Str) := by decide
+
+/-! ## path_last_node -/
+
+/-- the algorithm of `path_last_node`, for ANY separator byte: the returned
+pointer is `path + (length - |lastSeg|)`, i.e. it points at what stands behind
+the last separator (at the whole path when there is none, at the terminator
+when the path ends with the separator); every read lies inside the string -/
+theorem pathLastNodeSep_spec (sep : Byte) (s junk : Str) (hn : NUL ∉ s) :
+    pathLastNodeSep sep (s ++ NUL :: junk) = some (s.length - (lastSeg sep s).length) :=
+  pathLastNodeSep_eq sep s junk hn
+
+/-- `lastSeg` is what its name says: `s = pre ++ lastSeg`, the separator does
+not occur in it, and `pre` is empty or ends with the separator; and it is the
+suffix of `s` at the returned offset -/
+theorem lastSeg_exact (sep : Byte) (s : Str) :
+    (∃ pre, s = pre ++ lastSeg sep s ∧ sep ∉ lastSeg sep s ∧ (pre = [] ∨ pre.getLast? = some sep))
+    ∧ s.drop (s.length - (lastSeg sep s).length) = lastSeg sep s :=
+  ⟨lastSeg_char sep s, lastSeg_drop sep s⟩
+
+/-- the code as it is: the separator is the backslash -/
+theorem pathLastNode_spec (s junk : Str) (hn : NUL ∉ s) :
+    pathLastNode (s ++ NUL :: junk) = some (s.length - (lastSeg BSL s).length) :=
+  pathLastNodeSep_eq BSL s junk hn
+
+/-
+  FULL STATEMENT in the reading of every other helper of pathops.h (false on the
+  tree, see `pathLastNode_slash_witness`):
+     ∀ s, pathLastNode (s ++ NUL :: junk) = some (s.length - (lastSeg SLASH s).length)
+  Proved part: paths in which neither separator occurs.
+  Recorded finding: C19-path-last-node-backslash.
+-/
+theorem pathLastNode_slash_partial (s junk : Str) (hn : NUL ∉ s) (h1 : BSL ∉ s) (h2 : SLASH ∉ s) :
+    pathLastNode (s ++ NUL :: junk) = some (s.length - (lastSeg SLASH s).length) := by
+  rw [pathLastNode_spec s junk hn, lastSeg_of_not_mem BSL s h1, lastSeg_of_not_mem SLASH s h2]
+
+/-- `path_last_node("a/b")` returns `"a/b"`, not `"b"` -/
+theorem pathLastNode_slash_witness :
+    pathLastNode [0x61#8, SLASH, 0x62#8, NUL]
+      ≠ some (([0x61#8, SLASH, 0x62#8] : Str).length - (lastSeg SLASH [0x61#8, SLASH, 0x62#8]).length) := by
+  decide
+
+example : NUL ∉ ([0x61#8, 0x62#8] : Str) ∧ BSL ∉ ([0x61#8, 0x62#8] : Str) ∧ SLASH ∉ ([0x61#8, 0x62#8] : Str) := by
+  decide
+
+/-- before `fix: path_last_node("") …` the loop stepped in front of the string -/
+theorem pathLastNodeOrig_underread_witness :
+    pathLastNodeOrig [NUL] = none ∧ pathLastNodeOrig [NUL, 0x61#8] = none ∧ pathLastNode [NUL] = some 0 := by
+  decide
+
+/-- `path_next(path, NULL)` finds the same component as `path_next(path, &len)` -/
+theorem pathNextNoLen_spec (p junk : Str) (hn : NUL ∉ p) :
+    pathNextNoLen (p ++ NUL :: junk)
+      = some (match skipRef p with
+              | [] => none
+              | c :: r => some (p.length - (c :: r).length)) := by
+  rw [pathNextNoLen_of_pathNext _ _ (pathNext_spec p junk hn)]
+  cases skipRef p <;> rfl
+
+/-- `argvc_length_of_first`: the length of the run in front of the first space -/
+theorem lengthOfFirst_spec (s junk : Str) (hn : NUL ∉ s) :
+    lengthOfFirst (s ++ NUL :: junk) = some (s.takeWhile (· != SP)).length :=
+  lengthOfFirst_eq s junk hn
+
+/-! ## creader_skip / creader_skipws -/
+
+/-- `creader_skip`: the count is the length of the longest prefix of the unread
+part made of characters of `symbols`, the cursor ends behind it; the unread
+part is not read beyond `fini`, `symbols` not behind its terminator -/
+theorem creaderSkip_spec (cur sy junk : Str) (hn : NUL ∉ sy) :
+    creaderSkip cur (sy ++ NUL :: junk)
+      = some ((cur.takeWhile (sy.contains ·)).length, cur.dropWhile (sy.contains ·)) := by
+  simpa [creaderSkip] using creaderSkipLoop_eq sy junk hn cur 0
+
+/-- `creader_skipws` leaves the cursor at the first character that is not one
+of tab, LF, CR, space (or at the end), and counts what it passed -/
+theorem creaderSkipws_spec (cur : Str) :
+    creaderSkipws cur
+      = some ((cur.takeWhile isWsTrim).length, cur.dropWhile isWsTrim) := by
+  have h := creaderSkip_spec cur [TAB, NL, CR, SP] [] (by decide)
+  have hf : (fun c => ([TAB, NL, CR, SP] : Str).contains c) = isWsTrim := by
+    funext c
+    simp only [isWsTrim, List.contains_cons, List.contains_nil, Bool.or_false]
+    cases h1 : (c == SP) <;> cases h2 : (c == NL) <;> cases h3 : (c == CR) <;> cases h4 : (c == TAB) <;> rfl
+  rw [hf] at h
+  exact h
+
+/-- … so what is left is empty or starts with a non-space, and nothing but
+white space was passed -/
+theorem creaderSkipws_exact (cur : Str) :
+    ∃ n rest, creaderSkipws cur = some (n, rest) ∧ cur = cur.take n ++ rest ∧
+      (∀ c ∈ cur.take n, isWsTrim c = true) ∧ (∀ c r, rest = c :: r → isWsTrim c = false) := by
+  refine ⟨_, _, creaderSkipws_spec cur, ?_, ?_, ?_⟩
+  · rw [take_takeWhile_length]; exact List.takeWhile_append_dropWhile.symm
+  · intro c hc
+    rw [take_takeWhile_length] at hc
+    exact mem_takeWhile_sat isWsTrim cur c hc
+  · intro c r hr
+    exact dropWhile_head_not isWsTrim cur c r hr
+
+/-! ## igris::buffer -/
+
+/-- `buffer == buffer` (after the repair) is equality of the byte sequences,
+`!=` its negation; neither reads outside the two extents -/
+theorem bufEq_spec (a b : Str) : bufEq a b = some (decide (a = b)) ∧ bufNe a b = some (decide (a ≠ b)) :=
+  ⟨bufEq_eq a b, bufNe_eq a b⟩
+
+/-- before `fix: buffer == … memcmp`: "a\0b" == "a\0c" -/
+theorem bufEqOrig_nul_witness :
+    bufEqOrig [0x61#8, NUL, 0x62#8] [0x61#8, NUL, 0x63#8] = some true := by decide
+
+/-- `buffer == const char*` exactly as the code is (`strncmp(buf, str, sz) == 0`),
+for every buffer and every C string: the buffer's bytes up to its first NUL
+are compared with the first `sz` characters of `str`.  No read outside the
+buffer or behind the terminator of `str`. -/
+theorem bufEqZ_exact (a t junk : Str) (hn : NUL ∉ t) :
+    bufEqZ a (t ++ NUL :: junk) = some (a.takeWhile (· != NUL) == t.take a.length) := by
+  have := strncmpEq_cstr t junk hn a.length a (Nat.le_refl _)
+  simpa [bufEqZ, List.take_length] using this
+
+/-
+  FULL STATEMENT (false on the tree, see `bufEqZ_prefix_witness`):
+     ∀ a t, bufEqZ a (t ++ NUL :: junk) = some (decide (a = t))
+  Proved part: NUL-free buffers compared with strings that are not longer.
+  Recorded finding: C19-buffer-eq-cstr-prefix.
+-/
+theorem bufEqZ_partial (a t junk : Str) (hn : NUL ∉ t) (ha : NUL ∉ a) (hl : t.length ≤ a.length) :
+    bufEqZ a (t ++ NUL :: junk) = some (decide (a = t)) := by
+  rw [bufEqZ_exact a t junk hn]
+  have h1 : a.takeWhile (· != NUL) = a :=
+    takeWhile_all a _ (fun x hx => by
+      simp only [bne_iff_ne, ne_eq]
+      intro e; exact ha (e ▸ hx))
+  rw [h1, List.take_of_length_le hl, beq_dec]
+
+/-- `buffer("c", 1) == "cmd"` and `buffer("ab\0x", 4) == "ab"` hold -/
+theorem bufEqZ_prefix_witness :
+    bufEqZ [0x63#8] [0x63#8, 0x6d#8, 0x64#8, NUL] = some true ∧
+    bufEqZ [0x61#8, 0x62#8, NUL, 0x78#8] [0x61#8, 0x62#8, NUL] = some true := by decide
+
+example : NUL ∉ ([0x61#8] : Str) ∧ ([0x61#8] : Str).length ≤ ([0x61#8, 0x62#8] : Str).length := by decide
+
+/-! ## dstring -/
+
+/-- the notation is unambiguous: reading the output back gives the input, for
+every byte string (so `dstring` is injective) -/
+theorem undstring_dstring (s : Str) : undstring (dstring s) = some s :=
+  decodeD_dstring s _ (by have := (dstring_length s).1; omega)
+
+theorem dstring_injective (s t : Str) (h : dstring s = dstring t) : s = t := by
+  have h1 := undstring_dstring s
+  rw [h, undstring_dstring t] at h1
+  exact (Option.some.inj h1).symm
+
+/-- the output is printable ASCII only and at most four characters per byte
+(`bytes_to_dstring` needs `4 * size + 1` bytes of room, never more) -/
+theorem dstring_output (s : Str) :
+    (∀ c ∈ dstring s, isPrint c = true) ∧ (dstring s).length ≤ 4 * s.length :=
+  ⟨dstring_all_printable s, (dstring_length s).2⟩
+
+/-- before `fix: dstring … escape the backslash`: the two bytes `\ n` and the
+line feed had the same image -/
+theorem dstringOrig_ambiguous_witness :
+    dstringOrig [BSL, LN] = dstringOrig [NL] ∧ ([BSL, LN] : Str) ≠ [NL] := by decide
+
+/-! ## help texts -/
+
+/-- `mshell_help` / `mshell_tables_help`: the pieces handed to `write`, in call
+order, concatenate to the help text of the table(s) -/
+theorem mshellHelp_spec (t : List HelpEntry) (ts : List (List HelpEntry)) :
+    (mshellHelp t).flatten = helpText t ∧ (mshellTablesHelp ts).flatten = helpTextTables ts :=
+  ⟨mshellHelp_flatten t, mshellTablesHelp_flatten ts⟩
+
+/-- `rshell_help(table, ans, ansmax)` for `ansmax ≥ 1`: the answer is the help
+text cut to `ansmax - 1` characters plus the terminator, the return value its
+length; at most `ansmax` bytes are written -/
+theorem rshellHelp_spec (t : List HelpEntry) (m : Nat) (h : 0 < m) :
+    rshellHelp t (m : Int)
+      = (((helpText t).take (m - 1)).length, (helpText t).take (m - 1) ++ [NUL])
+    ∧ (rshellHelp t (m : Int)).2.length ≤ m := by
+  rw [rshellHelp_pos t m h]
+  refine ⟨rfl, ?_⟩
+  simp [List.length_take]; omega
+
+example : (0 : Nat) < 1 := by decide
+
+/-- `rshell_tables_help` for `ansmax ≥ 1`: the concatenated help texts cut to
+`ansmax - 2` characters (the routine keeps one byte more in reserve than
+`rshell_help`) plus the terminator; at most `ansmax` bytes are written — also
+for `ansmax = 1`, where the unrepaired code gave `memcpy` the length -1 -/
+theorem rshellTablesHelp_spec (ts : List (List HelpEntry)) (m : Nat) (h : 0 < m) :
+    rshellTablesHelp ts (m : Int)
+      = (((helpTextTables ts).take (m - 2)).length, (helpTextTables ts).take (m - 2) ++ [NUL])
+    ∧ (rshellTablesHelp ts (m : Int)).2.length ≤ m := by
+  rw [rshellTablesHelp_pos ts m h]
+  refine ⟨rfl, ?_⟩
+  simp [List.length_take]; omega
+
+/-- no room, nothing written (both routines) -/
+theorem rshellHelp_no_room (t : List HelpEntry) (ts : List (List HelpEntry)) (m : Int) (h : m ≤ 0) :
+    rshellHelp t m = (0, []) ∧ rshellTablesHelp ts m = (0, []) := by
+  simp [rshellHelp, rshellTablesHelp, h]
+
+example : (-1 : Int) ≤ 0 := by decide
+
+/-! ## rshell_execute_v called with the caller's argv -/
+
+/-- with `argc ≥ 1` the routine is `dispatchSpec` on the argument strings as
+they are (no tokenising: they may contain white space) -/
+theorem rshellExecuteV_spec (a0 : Str) (rest : List Str) (table : List Str) (dropargs : Nat) :
+    rshellExecuteV (a0 :: rest) table dropargs
+      = some (dispatchSpec 0 (a0 :: rest) [(table, dropargs)]) :=
+  rshellExecuteV_eq a0 rest table dropargs
+
+/-- `argc = 0` is outside the routine's contract: it reads `argv[0]` -/
+theorem rshellExecuteV_argc0_witness (table : List Str) (d : Nat) :
+    rshellExecuteV [] table d = none := rfl
 
 end Igris.C19
